@@ -751,6 +751,7 @@ func (ex *Exec) obligCases(kind, name string, pos token.Pos, states []*State, go
 }
 
 type FuncReport struct {
+	Sweep       bool // only the safety obligations were kept (property-wide no-panic sweep)
 	Func        string
 	File        string
 	Obligations []*Obligation
